@@ -22,6 +22,8 @@ def levels(tier):
         {"name": "n2", "n": 2, "alphabet": ["links", "we", "addprefix", "batch", "page", "delwe", "moveprefix"], "links_batch": 2,
          "batch_targets": 2, "defaults": ["never", "domain", "path1"]},
         {"name": "n3", "n": 3, "alphabet": ["links", "we", "addprefix"], "links_batch": 2, "defaults": ["never", "domain"]},
+        {"name": "nested-n2", "n": 2, "prelude": [["links", [[1, 3], [1, 3], [3, 1], [2, 2], [1, 2]]], ["we", [[0, 3]]], ["we", [[1, 4]]]],
+         "alphabet": ["delwe", "rmprefix", "moveprefix", "addprefix", "links"], "links_batch": 1, "defaults": ["never"]},
         {"name": "tpl-n3", "n": 3, "prelude": [["links", [[1, 3], [1, 3], [3, 1], [2, 2], [1, 2]]], ["page", 1, True], ["we", [[0, 3]]]],
          "alphabet": ["we", "addprefix", "moveprefix", "delwe", "links"], "links_batch": 1, "defaults": ["never", "domain"]},
     ]
@@ -95,5 +97,6 @@ def battery(E, t, h):
 
 
 def harness(E):
-    t, h, pool = build(E, E.params)
+    # the battery runs after every free request (query, write, query again), not only at the end
+    t, h, pool = build(E, E.params, after_step=lambda t_, h_: battery(E, t_, h_))
     battery(E, t, h)
